@@ -592,6 +592,36 @@ def rule_e(ctx):
     else:
         r.violate("visit_number|complex-unit-is-Err", "the is_complex() branch of visit_number does not lead to an Err", b.loc())
     r.floor("writes in visit_number", n, 1)
+    # outside the serializer: a Unit formatted with Display into text that is *returned as a value* (not into an error message)
+    # bypasses that test; such a site needs its own is_complex() guard
+    nd = 0
+    per_fn = {}
+    for fb in prog.bodies.values():
+        if fb.crate != "grass_compiler" or fb.path.endswith("Serializer::visit_number"):
+            continue
+        errs = an.err_exit_blocks(fb)
+        exits = set(fb.exits())
+        for c in fb.calls():
+            if not ((c.callee or "").endswith("Argument::new_display") and c.fn_args and c.fn_args[0].endswith("unit::Unit")):
+                continue
+            nd += 1
+            to_value = c.bb in (exits - errs) or an.reach_avoiding(fb, c.bb, errs, exits - errs) is not None
+            if not to_value:
+                continue
+            guarded = False
+            for kind, obj, truth, d in an.bool_guard_calls(fb, c.bb):
+                if kind == "call" and (obj.name() or "").endswith("Unit::is_complex") and truth is False:
+                    guarded = True
+            per_fn.setdefault(fb.root, []).append((guarded, c.loc()))
+    for fn, sites in sorted(per_fn.items()):
+        key = "%s|unit-text-into-value" % fn
+        bad = [loc for g, loc in sites if not g]
+        if not bad:
+            r.ok(key, sites=len(sites))
+        else:
+            r.violate(key, "%s formats a number's unit into a string value at %d site(s) (%s) without excluding compound units: `(1px*1em) + null` yields the text "
+                      "`1px*em`, which is not a CSS value (the serializer rejects the same number)" % (fn, len(bad), ", ".join(bad[:4])), bad[0])
+    r.floor("Unit Display sites examined", nd, 20)
     return r
 
 
